@@ -836,6 +836,42 @@ def run(prog, pid, clauses):
                         bad.append("line %d: %s is used other than as the argument of json.dump (%s)" % (n.lineno, dname, ast.unparse(par)[:60] if par is not None else "?"))
         out.append(ob("dump-leaves-result-alone", not bad, dict(offenders=bad), funcs, pid))
 
+    if "mode-hooks-leave-common-fields-alone" in clauses:
+        # C10 / C02 / C01 / C12: the per-mode table classes (output/dialects.py) may add their OWN fields and column attributes;
+        # the common content of a table - name, schema, the column list and the common column attributes, primary key, checks,
+        # indexes, alter section, partitioning, constraints - is the same in every mode.  Obligation: no method of a dialect
+        # class rebinds or mutates one of the common table fields, or writes a common column attribute.
+        COMMON_FIELDS = {"table_name", "schema", "primary_key", "checks", "index", "alter", "partitioned_by", "partition_by", "constraints", "columns"}
+        COMMON_COL = {"name", "type", "size", "nullable", "default", "unique", "references", "check"}
+        bad, funcs = [], set()
+        dmod = PKG + ".output.dialects"
+        for cname, c in prog.classes.get(dmod, {}).items():
+            for mname, fref in c.methods.items():
+                funcs.add(fref.key)
+                for n in ast.walk(fref.node):
+                    tgts = n.targets if isinstance(n, ast.Assign) else ([n.target] if isinstance(n, (ast.AugAssign, ast.AnnAssign)) else [])
+                    for t in tgts:
+                        pth = attr_path(t) if isinstance(t, ast.Attribute) else None
+                        if pth and pth[0] == "self" and len(pth) == 2 and pth[1] in COMMON_FIELDS:
+                            bad.append("%s.%s rebinds the common table field %s (line %d)" % (cname, mname, pth[1], t.lineno))
+                        if isinstance(t, ast.Subscript):
+                            base = attr_path(t.value)
+                            if base and base[0] == "self" and len(base) == 2 and base[1] in COMMON_FIELDS - {"columns"}:
+                                bad.append("%s.%s writes into the common table field %s (line %d)" % (cname, mname, base[1], t.lineno))
+                            if isinstance(t.slice, ast.Constant) and t.slice.value in COMMON_COL and not (base and base[0] == "self"):
+                                bad.append("%s.%s writes the common column attribute %r (line %d)" % (cname, mname, t.slice.value, t.lineno))
+                    if isinstance(n, ast.Call) and isinstance(n.func, ast.Attribute) and n.func.attr in MUT:
+                        base = attr_path(n.func.value)
+                        if base and base[0] == "self" and len(base) == 2 and base[1] in COMMON_FIELDS - {"columns"}:
+                            bad.append("%s.%s mutates the common table field %s (line %d)" % (cname, mname, base[1], n.lineno))
+                        if n.func.attr == "update" and n.args and isinstance(n.args[0], ast.Dict):
+                            for k in n.args[0].keys:
+                                if isinstance(k, ast.Constant) and k.value in COMMON_COL and not (base and base[0] == "self"):
+                                    bad.append("%s.%s updates the common column attribute %r (line %d)" % (cname, mname, k.value, n.lineno))
+        if not funcs:
+            bad.append("no dialect classes found in output/dialects.py")
+        out.append(ob("mode-hooks-leave-common-fields-alone", not bad, dict(offenders=bad, methods=len(funcs)), funcs, pid))
+
     if "no-shared-mutable-skeleton" in clauses:
         # C14 / C15 / C03: a module-level or class-level dict / list / set display is ONE object for the whole process.
         # Looking things up in it is fine; letting it - or, through a shallow copy, the mutable values nested in it -
